@@ -8,19 +8,80 @@ import sys
 HERE = os.path.dirname(os.path.abspath(__file__))
 VERIF = os.path.dirname(HERE)
 
+def E(cat, text, ref, note, tech):
+    return {"category": cat, "text": text, "design_ref": ref, "note": note, "technique": tech}
+
+
+TB = ("Trusted: clang 14 front end (AST, constant folding), the libTooling fact extractor, the E2 transfer functions and the "
+      "std-algorithm summaries, the hand-written spec tables; host is little-endian x86-64 with libstdc++. ")
+
 CLAIMED = {
-    "C16": {
-        "category": "other",
-        "text": ("Static sibling-table rule (G-TAB): every row of the generator's default min/max/null tables is "
-                 "compared with the sbepp built-in constant of the same primitive through compile-time witnesses "
-                 "over the two constants, in the brace context the generated code uses; key sets and wrapper rows of "
-                 "all per-primitive tables. Decides the 'SBE defaults' clause for all schemas (the tables are the only "
-                 "source of defaults)."),
-        "design_ref": "DESIGN.md 2.4 G-TAB, 3/C16",
-        "note": ("Trusted: clang's type checker/constant folder for the witness TU, the fact extractor. Not decided: "
-                 "comparison results on concrete value pairs."),
-        "technique": "custom AST table extraction + static_assert compile witnesses over constants",
-    },
+    "C01": E("other", "Decides the structural clauses of the wire-image property for all inputs: codec byte order/width of every "
+             "set_primitive instantiation (both build paths), exact write footprint of setters, the validator's layout recurrence "
+             "(members never overlap, blockLength >= content), and - for the 24 schemas of build set + corpus - offset/width/byte "
+             "order of every generated accessor against an independent XML model. Whole encode scripts are not decided.",
+             "DESIGN.md 3/C01", TB + "Composition over run-time group counts / data lengths is not covered.",
+             "affine/effect dataflow on typed AST (E2) + translation validation of generated headers (E4) + guard/effect table (G-GUARD)"),
+    "C02": E("other", "Decides the decoder-side codec clause (one READ of sizeof(T), result = those bytes reversed iff byte orders "
+             "differ, no arithmetic on the value) for every instantiation under C++11/17/20 paths, get_value's check/read width "
+             "agreement, constexpr reachability under C++20, and per generated getter of the corpus the model's offset/width/order.",
+             "DESIGN.md 3/C02", TB + "Value equality on concrete images and FP register effects are not decided.",
+             "affine/effect dataflow (E2) against the SBE encoding table + E4"),
+    "C03": E("other", "Every level-end, stride and entry address in the library is an affine form over *wire* blockLength/numInGroup "
+             "symbols (never a compile-time constant); in the generator the compiled block length reaches only header fillers and "
+             "block_length() traits.", "DESIGN.md 3/C03", TB, "affine spec rows over E2 summaries + who-may-read def-use rule (G-FLOW c)"),
+    "C04": E("other", "The 48-row cursor protocol table (5 kinds x 10 primitives) is compared, as equalities of affine normal forms, "
+             "with every instantiation: access address, value, cursor-after, wrong-cursor assertion present/absent, size check on "
+             "the accessed base. Call-sequence product space not explored.", "DESIGN.md 3/C04", TB,
+             "spec table vs path-sensitive affine summaries (E2); E4 for generated cursor offsets"),
+    "C05": E("other", "R-INT proves every size computation is carried out in 64 bits or cannot overflow for any header value; "
+             "size rows (flat = H + N*BL, cursor size = c - begin); generated size_bytes(...) traits equal the model's polynomial "
+             "with the documented parameter list.", "DESIGN.md 3/C05", TB + "Numeric equality on concrete messages not decided.",
+             "interval arithmetic over C++ conversion rules (R-INT) + E2 rows + E4 polynomial comparison"),
+    "C07": E("other", "Rule families over the generator for all schemas (template binding, free text into literals, literal tables, "
+             "keyword table, name capture) plus standalone compilation of every generated header and a model-generated "
+             "touch-everything TU for 24 schemas.", "DESIGN.md 3/C07",
+             "Compilability of schemas outside the corpus beyond the rule families is not decided. Known findings: name capture (Byte/args/last).",
+             "template lint + def-use taint on AST facts, compile witnesses"),
+    "C08": E("other", "Each of the 65 throw sites is dominated by exactly its hand-confirmed guard (strictness included); traversal "
+             "reaches every position; exit status mapping; the 24 valid boundary schemas are accepted.", "DESIGN.md 3/C08",
+             "Acceptance of every rule-abiding schema in general is not decided.",
+             "structural dominance + normalised guard table (G-GUARD), call-graph requirements (G-CALL)"),
+    "C09": E("other", "Every enumerated hazard call site has a dominating guard or a recorded invariant linked to a live validator "
+             "check; format strings are literals with bound fields; main covers std::exception; include recursion rule (known "
+             "finding).", "DESIGN.md 3/C09", "UB in general, pugixml internals, memory exhaustion, other hang shapes not decided.",
+             "hazard enumeration with resolved callees + guard-or-invariant rule (G-HAZ), template lint (G-TPL)"),
+    "C10": E("other", "On every path of every public operation each buffer access is preceded by an asserted bound that covers exactly "
+             "the accessed bytes on the accessed base (R-CHK); configuration truth table of SBEPP_SIZE_CHECKS_ENABLED.",
+             "DESIGN.md 3/C10", TB + "Operation sequences follow operation-by-operation only. Known findings: length narrowing in data assign*.",
+             "path-sensitive affine/effect dataflow with dominance + linear implication (R-CHK)"),
+    "C11": E("proof", "Type checker as prover: generated negative witnesses for every mutating call form of every entity, conversion "
+             "witnesses, and the no-const-removing-cast rule over all instantiations.", "DESIGN.md 3/C11",
+             "Trusted: clang/g++ type checkers, cast enumeration by the extractor, completeness of the XML-model enumeration (cross-checked by E4).",
+             "compile-fail witnesses + AST cast rule"),
+    "C12": E("other", "Affine rows for group bases / iterators / cursor ranges for all 16 dimension pairs (laws hold as algebra over "
+             "the rows) plus R-INT on every pointer-offset computation and difference_type conversion.", "DESIGN.md 3/C12",
+             TB + "Known findings: narrow difference_type (D16).", "spec rows over E2 summaries + interval arithmetic (R-INT)"),
+    "C15": E("other", "Shift rule (operand at least as wide as T, unsigned at T's width), mask algebra rows of get_bit/set_bit, "
+             "generated choice accessors pass the XML index.", "DESIGN.md 3/C15", TB, "R-INT shift rule + E2 mask rows + E4"),
+    "C16": E("other", "Generator default min/max/null tables equal the library constants (compile witnesses over constants); "
+             "comparison operators as truth tables over the skeleton atoms; NaN-null rule.", "DESIGN.md 3/C16",
+             "Results on concrete value pairs beyond the truth tables are not decided.",
+             "sibling-table rule with static_assert witnesses + propositional truth tables of operator skeletons"),
+    "C17": E("translation_validation", "For every message/group of 24 schemas the filler's write set equals the XML model's header "
+             "fields/values; sibling rule on header-member lookups.", "DESIGN.md 3/C17", "Scope: build set + corpus schemas.",
+             "E2 summaries of generated fillers vs independent XML model"),
+    "C18": E("translation_validation", "Every trait of every entity of 24 schemas equals the XML model; tag predicates and traits_tag "
+             "round trips by type-level witnesses.", "DESIGN.md 3/C18", "Scope: build set + corpus schemas. min/max/null traits are covered by C16.",
+             "AST extraction of trait specialisations vs independent XML model + static_assert witnesses"),
+    "C19": E("translation_validation", "Generated visit_children bodies are ||-chains of exactly the members in schema order with own "
+             "accessor and tag; enum/set visits; library early-stop loop; by-tag forwarding.", "DESIGN.md 3/C19",
+             "Event logs on concrete messages for every stopping point are not explored (short-circuit || is the language's).",
+             "AST structure rules on generated code vs XML model"),
+    "C20": E("other", "Must-check rules on fs_provider (open test, flush/close, state test with throwing arm), who-may-touch-disk, "
+             "exit status mapping, determinism API/iteration rules.", "DESIGN.md 3/C20",
+             "Individual failing syscalls and byte identity of real runs are not decided.",
+             "must-check / who-may-call rules on resolved call sites"),
 }
 
 PENDING = {
